@@ -206,7 +206,11 @@ func (m *Monitors) notifyChecks() {
 		ld := w.nodeByAddr(raft.ServerAddress(id))
 		if x, ok := m.leaders[t]; !ok || x != ld {
 			if s, ok2 := m.senders[t]; !ok2 || s != ld {
-				m.fail("C18", "follower-names-non-leader", "follower n%d (term %d) names %s as leader, but the leader of term %d was %v", n.id, t, id, t, m.leaders[t])
+				was := "nobody (so far)"
+				if ok {
+					was = nodeName(x)
+				}
+				m.fail("C18", "follower-names-non-leader", "follower n%d (term %d) names %s as leader, but the leader of term %d was %s", n.id, t, id, t, was)
 			}
 		}
 	}
